@@ -1858,7 +1858,20 @@ func (ctx Ctx) assignFromTo(s ast.Node,
 		if info.throughPointer {
 			structExpr = ctx.expr(lhs.X)
 		} else {
-			if base, isIdent := lhs.X.(*ast.Ident); isIdent && ok && !ctx.isPtrWrapped(base) {
+			// the root of a chain of value fields (x.f.g = v) decides
+			root := lhs.X
+			for {
+				sel, isSel := root.(*ast.SelectorExpr)
+				if !isSel {
+					break
+				}
+				if _, isPtr := ctx.typeOf(sel.X).Underlying().(*types.Pointer); isPtr {
+					root = nil // reached through a pointer: a location
+					break
+				}
+				root = sel.X
+			}
+			if base, isIdent := root.(*ast.Ident); isIdent && ok && !ctx.isPtrWrapped(base) {
 				// a := bound struct is a value, not a location
 				ctx.unsupported(s, "assignment to a field of %s, which is not assignable (declare it with var)", base.Name)
 			}
